@@ -24,7 +24,7 @@ with prelude.NoTracing():
         (("e-", "H+"), ("H",), 100),
     ]
     ALLOWED = [[], ["H", "H2", "C", "CH"], ["H", "H2", "e-", "H+"], ["H", "H2", "C", "CH", "O", "CO", "e-", "H+"], ["C", "O", "CO"]]
-    REQUIRED = [[], ["He"], ["H2", "N"], ["O"]]
+    REQUIRED = [[], ["He"], ["H2", "N"], ["O"], ["CO", "O"]]
 
     def mk(i):
         r, p, t = DESC[i]
@@ -169,10 +169,10 @@ def _one_step(op, v):
     a, p1, p2 = prelude.concrete(v)
     pre1, pre2, pre3 = p1, (0, 3, 7, 7, 5, 7, 2)[p2], p2 % 3
     pre_ops = [(6, pre3, 0)] + [(0, p, 0) for p in (pre1, pre2) if p < 7]
-    if pre3 == 0:
-        # (no allowed list:) extra species declared through the setter *after* the reactions are held -- some of them
-        # take part in held reactions at that moment, and the operation under test may remove those reactions
-        pre_ops.append((7, (a + p1 + p2) % len(REQUIRED), 0))
+    # extra species declared through the setter *after* the reactions are held -- some of them take part in held
+    # reactions at that moment (the operation under test may remove those reactions), some lie outside an active allowed
+    # list (being declared extra does not make a species allowed: reactions mentioning it stay skipped)
+    pre_ops.append((7, (a + p1 + p2) % len(REQUIRED), 0))
     return _run(pre_ops + [(op, a, (a + 3) % 7)])
 
 
